@@ -223,17 +223,15 @@ Definition clear_obj (st : state) (c : cid) : state :=
   fold_left clear_with_descs (nodes_of_obj st c) st.
 
 (** [clear_attr_referrers ref]: the readers of the reference with their trace
-    descendants; the reference graph loses the reference and its readers only.
-    (The code prunes the reference graph first and clears afterwards; the two
-    parts touch disjoint components of the state, so the order is immaterial.) *)
-Definition clear_no_rg (s : state) (i : item) : state :=
-  if mem_node (node_of i) (s_nodes s) then
-    let removed := descs_with s (node_of i) in
-    fold_left on_clear_trace removed (g_remove_nodes s removed)
-  else s.
+    descendants, exactly as [clear_with_descs] clears them (the reference
+    graph forgets every cleared element); the reference itself and its
+    readers leave the reference graph.
+    (The code prunes the reference and its readers first and clears afterwards;
+    removals commute, so the order is immaterial.) *)
+Definition clear_reader (s : state) (i : item) : state := clear_with_descs s (node_of i).
 Definition clear_attr_referrers (st : state) (r : rid) : state :=
   let readers := rg_readers st r in
-  let st1 := fold_left clear_no_rg readers st in
+  let st1 := fold_left clear_reader readers st in
   upd_rgraph st1 (filter (fun i => negb (mem_item i readers)) (s_rnodes st1))
              (filter (fun e => negb (Nat.eqb (fst e) r) && negb (mem_item (snd e) readers)) (s_redges st1)).
 
